@@ -165,6 +165,7 @@ struct Sweep {
     QJsonArray bad;
     QJsonArray notes;
     QJsonArray own;        // entries for which the root element is reproduced (library's own output form)
+    QStringList digests;   // "<class>=<digest of X1>" per run on the root (determinism across heap fill patterns)
 };
 
 struct Dedup {
@@ -224,6 +225,10 @@ void sweep(const QDomElement &root, bool deep, bool wantOwn, Sweep &s)
             s.runs++;
             if (c.checked) {
                 s.admittedChecked++;
+            }
+            if (isRoot && wantOwn) {
+                s.digests << QString::fromLatin1(c.name) + QChar('=') +
+                        QString::fromLatin1(QCryptographicHash::hash(p.x1, QCryptographicHash::Sha1).toHex().left(8));
             }
             if (c.parseOnly) {
                 continue;
@@ -850,6 +855,7 @@ QXV_DRIVER(codec)
         ctx.cases++;
         QElapsedTimer jobTimer;
         jobTimer.start();
+        TestClient::resetIdCounter();  // generated stanza ids do not depend on the jobs run before
 
         if (kind == "list") {
             QJsonArray a;
@@ -871,7 +877,7 @@ QXV_DRIVER(codec)
             continue;
         }
         if (kind == "obj") {
-            auto res = objectCase(ctx, job["cls"].toString(), job["map"].toInt(), job["vals"].toArray(), job["variant"].toInt());
+            auto res = objectCase(ctx, job["cls"].toString(), job["map"].toInt(), job["vals"].toArray(), job["variant"].toInt(), job["getters"].toBool());
             res.insert("e", "Obj");
             res.insert("case", caseId);
             ctx.emit_(res);
@@ -906,7 +912,7 @@ QXV_DRIVER(codec)
             int sent = job["client"].toBool() ? feedClient(seed.xml, s.bad) : -1;
             ctx.emit_({ { "e", "Seed" }, { "case", caseId }, { "seed", seed.id }, { "src", seed.src }, { "done", true }, { "runs", s.runs },
                         { "admitted", s.admittedChecked }, { "reorder", s.reorderOnly }, { "empty", s.emptyOut }, { "notReadmitted", s.notReadmitted },
-                        { "sent", sent }, { "own", s.own }, { "notes", s.notes }, { "bad", s.bad } });
+                        { "sent", sent }, { "own", s.own }, { "notes", s.notes }, { "dig", s.digests.join(QChar(',')) }, { "bad", s.bad } });
             continue;
         }
 
